@@ -22,6 +22,12 @@ Example C01_constants_agree :
   (gen_max_element, gen_obj_defaults) = (max_element, [default_name; VInt 0; VInt 1; VMap []]).
 Proof. vm_compute. reflexivity. Qed.
 
+(* the premises of the generic theorem, decided on today's wirings (named so that a changed wiring is reported first) *)
+Example C01_wirings_accepted :
+  (wiring_ok mol_v2 && covers_all mol_v2 && wiring_ok ens_v2 && covers_all ens_v2
+   && wiring_ok mol_v1 && covers_v1 mol_v1 && wiring_ok ens_v1 && covers_v1 ens_v1)%bool = true.
+Proof. vm_compute. reflexivity. Qed.
+
 (* ---- current encoding (v2): every listed field comes back; only msgpack's normalisation of attribute values *)
 Theorem C01_mol_v2 : forall o, wf_obj false o -> roundtrip mol_v2 o = Some (mnorm_obj o).
 Proof. exact (roundtrip_v2 mol_v2 (@eq_refl bool true <: wiring_ok mol_v2 = true) (@eq_refl bool true <: covers_all mol_v2 = true)). Qed.
